@@ -80,6 +80,10 @@ fn strip_check(input: &TokenStream, stripped: &str) -> Result<(), String> {
         || inp.vis.to_token_stream().to_string() != out.vis.to_token_stream().to_string() {
         return Err("enum header changed".into());
     }
+    // (`Generics::to_tokens` prints the parameter list only)
+    if inp.generics.where_clause.to_token_stream().to_string() != out.generics.where_clause.to_token_stream().to_string() {
+        return Err("where clause changed".into());
+    }
     let (a, b) = (attr_sig(&inp.attrs, true), attr_sig(&out.attrs, false));
     if a != b {
         return Err(format!("enum attributes: expected {:?} got {:?}", a, b));
